@@ -21,6 +21,7 @@ class NFDomain(Domain):
     def __init__(self, scalars: Optional[set[str]] = None) -> None:
         self.scalars = set(scalars or ())  # atoms that are not arrays (never subscripted)
         self.elem_info: dict[str, tuple[str, list[NF]]] = {}  # element atom -> (array atom, index NFs)
+        self.bool_info: dict[str, tuple] = {}  # boolean atom -> ("not", v) | ("and"/"or", a, b) | ("cmp", op, a, b) | ("pred", name, args)
         self.fresh = 0
 
     # -- basics ----------------------------------------------------------
@@ -52,7 +53,9 @@ class NFDomain(Domain):
             if isinstance(op, (ast.BitAnd, ast.BitOr, ast.BitXor)):
                 sym = {ast.BitAnd: "and", ast.BitOr: "or", ast.BitXor: "xor"}[type(op)]
                 x, y = sorted([a.canon(), b.canon()])
-                return NF.atom(f"{sym}({x};{y})")
+                name = f"{sym}({x};{y})"
+                self.bool_info[name] = (sym, a, b)
+                return NF.atom(name)
         except (ValueError, ZeroDivisionError) as e:
             raise Unsupported(f"line {getattr(node, 'lineno', '?')}: {e} in {short(node)}") from e
         raise Unsupported(f"line {getattr(node, 'lineno', '?')}: operator {type(op).__name__} in {short(node)}")
@@ -62,10 +65,10 @@ class NFDomain(Domain):
             return -a
         if isinstance(op, ast.UAdd):
             return a
-        if isinstance(op, ast.Invert):
-            return NF.atom(f"not({a.canon()})")
-        if isinstance(op, ast.Not):
-            return NF.atom(f"not({a.canon()})")
+        if isinstance(op, (ast.Invert, ast.Not)):
+            name = f"not({a.canon()})"
+            self.bool_info[name] = ("not", a)
+            return NF.atom(name)
         raise Unsupported(f"unary operator {type(op).__name__}")
 
     def compare(self, op, a, b, node):
@@ -78,7 +81,9 @@ class NFDomain(Domain):
         sym = {ast.Lt: "lt", ast.LtE: "le", ast.Gt: "gt", ast.GtE: "ge", ast.Eq: "eq", ast.NotEq: "ne"}.get(type(op))
         if sym is None:
             return None
-        return NF.atom(f"{sym}({a.canon()};{b.canon()})")
+        name = f"{sym}({a.canon()};{b.canon()})"
+        self.bool_info[name] = ("cmp", sym, a, b)
+        return NF.atom(name)
 
     def boolop(self, op, values, node):
         parts = []
@@ -95,7 +100,7 @@ class NFDomain(Domain):
         m = mask.canon() if isinstance(mask, NF) else (mask.path if isinstance(mask, Ref) else str(mask))
         if isinstance(new, NF) and isinstance(old, NF) and new == old:
             return new
-        return Phi("mask:" + m, new, old)
+        return Phi("mask:" + m, new, old, cond=mask)
 
     # -- arrays ----------------------------------------------------------
     def elem(self, base, base_text, idx, node, interp):
